@@ -47,7 +47,7 @@ def run_cli_check(prop, tier):
             continue
         evs = slice_at_line(v["trace"], v["line"])
         sc = evs[0] if evs else {}
-        mode = {k: sc.get(k) for k in ("cmd", "out", "force", "inplace", "arch", "pin", "nseeds", "stdin_seed", "verify_out", "transport", "empty_input")}
+        mode = {k: sc.get(k) for k in ("cmd", "out", "force", "inplace", "arch", "pin", "nseeds", "stdin_seed", "verify_out", "transport", "empty_input", "stale_tmp", "late", "race")}
         out.violation("%s|%s" % (v["rule"], json.dumps(mode, sort_keys=True)), "%s (mode %s)" % (v["rule"], json.dumps(mode)),
                       {"kind": "cli_l2", "mode": mode, "verdict": {k: v[k] for k in ("rule", "scenario", "line")}, "events": evs[:60]})
     samples = [slice_at_line(traces[0], 2)[:12]]
@@ -55,7 +55,7 @@ def run_cli_check(prop, tier):
     out.coverage = {"states": states, "transitions": trans, "traces_validated_against_impl": runs, "trace_events_validated": summary["events"],
                     "modes": nmodes, "verdicts_all_properties": counts, "exhaustive": True,
                     "model_checking_runs": [{"cfg": "CliMC.cfg", "distinct_states": states, "violated": res["violated"], "actions_taken": {k: v for k, v in res["coverage"].items() if v > 0}}],
-                    "rule": "the full mode product of CliMC.tla: {clone, compress} x output {absent, regular, block device smaller/equal/larger than the source} x --force-create x --seed-output x archive {valid, invalid} x --verify-header {none, match, mismatch} x seeds x stdin seed x --verify-output x {local, http}; one real process per mode",
+                    "rule": "the full mode product of CliMC.tla: {clone, compress} x output {absent, regular, block device smaller/equal/larger than the source} x --force-create x --seed-output x archive {valid, invalid} x --verify-header {none, match, mismatch} x seeds x stdin seed x --verify-output x {local, http} x stale temporary file x damaged chunk met after the output was opened (late failure) x output created by another party while the command waits for the server (race) x output name a dangling link; one real process per mode",
                     "samples": samples}
     out.assumptions = ["block devices are regular files behind hook H1 (BITA_VERIF_BLOCKDEV, cfg oll3_bita_verif): size check, no-resize and scan position are exercised, device I/O is not",
                        "strace -f -y observes every open/creat/write/truncate/unlink/rename of the process tree; stdio and sockets are classified, not dropped",
